@@ -103,6 +103,12 @@ CHECKS = {
          "are compared with the model (instances, name binding, ownership); acquires on an empty counter must block until another handle releases; N processes x M threads must never exceed k holders and conserve the units; "
          "scripted children are SIGKILLed before/after every IPC libc call (thorough: at every occurrence of the relevant system calls via strace) and the documented open / take ownership / free / create sequence must restore a fresh counter.",
     note="Counter inspection relies on glibc's named-semaphore file layout; creator frees without ownership are outside the documented behaviour and not generated."),
+ "C07": dict(cat="exploration", ref="§3 C07",
+    technique="multi-process agents against a byte-image reference model (cross-handle digests after every write), size rules, /proc maps and /dev/shm inspection, system-wide locked read-modify-write workload, synchronised concurrent first opens, SIGKILL crash points + documented recovery",
+    text="2-3 agent processes open 1-2 names with equal/larger/smaller/zero size arguments and read-only handles; after every new/write every live handle in every process must read exactly the model image, sizes must obey the stated rules, "
+         "mappings must cover get_size and disappear on free, owner frees must remove segment and lock semaphore. N processes x M locked non-atomic increments must add up; processes released at the same instant open a fresh name and the handles "
+         "obtained must share memory and lock; scripted children are SIGKILLed before/after every IPC libc call and the documented clean-up must yield a fresh zeroed segment of the new size with a usable lock.",
+    note="Two known findings (KNOWN_FINDINGS.txt): split lock after concurrent first opens; zero-size segment after a kill between shm_open and ftruncate."),
 }
 
 NOT_YET = {}
